@@ -107,3 +107,31 @@ Example ex_second_conflict_keeps_first_copies :
   option_map f_content (w_src w 65%N) = Some 7%N /\ option_map f_content (w_dst w 66%N) = Some 9%N /\
   option_map f_content (w_src w 69%N) = Some 11%N /\ option_map f_content (w_dst w 70%N) = Some 13%N.
 Proof. vm_compute. repeat split. Qed.
+
+(* ---------- files that an ignore rule hides on one side ---------- *)
+(* "Every file version present before the run still exists afterwards": a file that the scan of one side does not list although it
+   is there (.ignore, .gitignore) is left alone on BOTH sides by the whole run, under every strategy -- it is not "deleted" on the
+   other side, not overwritten, not thrown away in a conflict (`fix: bisync leaves a file alone that an ignore rule hides on one
+   side`); and without ignore rules the run is the one of the theorems above. *)
+Theorem C11_hidden_files_left_alone : forall U st now hs hd w p,
+  hidden_somewhere hs hd w p = true -> (forall q, In q U -> ~ is_cname q p) ->
+  at_ (sync_files_h U st now hs hd w) p = at_ w p.
+Proof. exact hidden_left_alone. Qed.
+Print Assumptions C11_hidden_files_left_alone.
+
+Theorem C11_no_ignore_rules_is_the_plain_run : forall U st now w,
+  sync_files_h U st now (fun _ => false) (fun _ => false) w = fold_left (sync_step st now w) U w.
+Proof. exact sync_files_h_no_rules. Qed.
+Print Assumptions C11_no_ignore_rules_is_the_plain_run.
+
+(* non-vacuity: path 4 synchronised, then edited on both sides and hidden on the source side; path 8 only on the destination and
+   hidden on the source side where another file of that name sits.  Under `dest` (which would overwrite the source) both stay. *)
+Example ex_hidden :
+  let w := mk_world (fun p => if N.eqb p 4 then Some (mk_fent 3 7 1) else if N.eqb p 8 then Some (mk_fent 2 1 5) else None)
+                    (fun p => if N.eqb p 4 then Some (mk_fent 6 8 2) else if N.eqb p 8 then Some (mk_fent 9 1 6) else None)
+                    (fun p => if N.eqb p 4 then Some (mk_srec 1 3) else None) (fun p => if N.eqb p 4 then Some (mk_srec 1 3) else None) in
+  let hs := fun p => N.eqb p 4 || N.eqb p 8 in
+  let w' := sync_files_h [4; 8]%N PreferDest 100 hs (fun _ => false) w in
+  (w_src w' 4, w_dst w' 4, w_src w' 8, w_dst w' 8)%N = (w_src w 4, w_dst w 4, w_src w 8, w_dst w 8)%N
+  /\ w_src (fold_left (sync_step PreferDest 100 w) [4; 8]%N w) 4%N = Some (mk_fent 6 100 2).
+Proof. vm_compute. split; reflexivity. Qed.
